@@ -389,6 +389,7 @@ pub fn generate(suite: &str, seed: u64, count: u64, tier: &str) -> Vec<String> {
         "pair" => out = crate::pairsuite::gen_pair(&mut rng, count, tier),
         "conc" => out = crate::concsuite::gen_conc(&mut rng, count, tier),
         "cli" => out = crate::clisuite::gen_cli(&mut rng, count, tier),
+        "bin" => out = crate::binsuite::gen_bin(&mut rng, count, tier),
         "codec-dec" => out = crate::gen_codec::gen_dec(&mut rng, count, tier),
         "codec-enc" => out = crate::gen_codec::gen_enc(&mut rng, count, tier),
         other => panic!("unknown suite {other}"),
